@@ -26,6 +26,14 @@ pub enum OOp {
     TryRecv,
     Close,
     DropRx,
+    /// `time::timeout(1s, &mut rx).await`: the value / `Closed` (receiver used up) or `Elapsed` (the
+    /// receiver stays usable)
+    TimeoutRecv,
+    /// `time::trigger_timeouts(|_| true)` / `time::clear_triggers()`
+    TriggerAll,
+    ClearTriggers,
+    /// `task::yield_now().await`
+    Yield,
 }
 
 #[derive(Clone, Debug, PartialEq, Eq, Hash, PartialOrd, Ord)]
@@ -38,6 +46,7 @@ pub enum ORes {
     /// RecvError / TryRecvError::Closed
     Closed,
     Empty,
+    Elapsed,
     Bool(bool),
     /// the handle is gone (ill-formed program)
     Nothing,
@@ -64,6 +73,10 @@ pub struct OM {
     rx_alive: bool,
     /// value taken by the receive in progress
     tmp: Option<Result<u8, ()>>,
+    /// `time`: a trigger is registered / the receiver's timeout is live / has expired
+    triggered: bool,
+    live: bool,
+    expired: bool,
 }
 
 pub struct OneshotFam;
@@ -79,6 +92,8 @@ impl Family for OneshotFam {
     const ASYNC: bool = true;
 
     fn make_objs(_cfg: &(), _n: usize) -> OObjs {
+        // harness hygiene: the wrapper's trigger table is a std thread-local that survives executions
+        shuttle_tokio_impl_inner::time::clear_triggers();
         let (tx, rx) = oneshot::channel::<u8>();
         OObjs {
             tx: RefCell::new(Some(tx)),
@@ -157,7 +172,15 @@ impl Family for OneshotFam {
                     ORes::Unit
                 }
             },
-            OOp::Recv | OOp::TxClosed => unreachable!("async operation in a synchronous context"),
+            OOp::TriggerAll => {
+                shuttle_tokio_impl_inner::time::trigger_timeouts(|_| true);
+                ORes::Unit
+            }
+            OOp::ClearTriggers => {
+                shuttle_tokio_impl_inner::time::clear_triggers();
+                ORes::Unit
+            }
+            OOp::Recv | OOp::TxClosed | OOp::TimeoutRecv | OOp::Yield => unreachable!("async operation in a synchronous context"),
         }
     }
 
@@ -173,6 +196,24 @@ impl Family for OneshotFam {
                             Err(_) => ORes::Closed,
                         },
                     }
+                }
+                OOp::TimeoutRecv => {
+                    let h = o.rx.borrow_mut().take();
+                    match h {
+                        None => ORes::Nothing,
+                        Some(mut rx) => match shuttle_tokio_impl_inner::time::timeout(std::time::Duration::from_secs(1), &mut rx).await {
+                            Ok(Ok(v)) => ORes::Val(v),
+                            Ok(Err(_)) => ORes::Closed,
+                            Err(_) => {
+                                *o.rx.borrow_mut() = Some(rx);
+                                ORes::Elapsed
+                            }
+                        },
+                    }
+                }
+                OOp::Yield => {
+                    shuttle_tokio_impl_inner::task::yield_now().await;
+                    ORes::Unit
                 }
                 OOp::TxClosed => {
                     let h = o.tx.borrow_mut().take();
@@ -194,8 +235,38 @@ impl Family for OneshotFam {
     fn yields(_op: &OOp) -> Option<bool> {
         None
     }
-    fn m_abortable(_op: &OOp, _phase: u8) -> bool {
-        false
+    /// A task can be cancelled where it is suspended: in `rx.await` and `tx.closed().await` once
+    /// they have been polled and found nothing (`blocking_recv` blocks inside the poll).
+    fn m_abortable(op: &OOp, phase: u8) -> bool {
+        match op {
+            OOp::Recv | OOp::TimeoutRecv => phase == 1,
+            OOp::Yield => true,
+            // `closed()` ends with a `yield_now().await`: it is suspended once more after the
+            // receiver has gone, a point the model does not tell apart from "just called"
+            OOp::TxClosed => true,
+            _ => false,
+        }
+    }
+    /// The cancelled task's future owns the half it was awaiting on: cancelling `rx.await` drops the
+    /// receiver (tokio: the channel is closed, a value already sent is lost, `send` is refused from
+    /// then on, `closed()` completes); cancelling `tx.closed().await` drops the sender without a
+    /// value (the receiver gets `RecvError`).  Neither destructor has a scheduling point.
+    fn m_cancel_begin(m: &OM, _t: usize, op: &OOp, _phase: u8) -> Option<Vec<MStep<OM, ()>>> {
+        let mut n = m.clone();
+        match op {
+            OOp::Recv | OOp::TimeoutRecv => {
+                n.rx_open = false;
+                n.rx_alive = false;
+                n.slot = None;
+                n.live = false;
+                n.expired = false;
+            }
+            OOp::TxClosed => {
+                n.tx = TxSt::Dropped;
+            }
+            _ => return None,
+        }
+        Some(vec![MStep::Done(n, ())])
     }
     fn objects_of(_op: &OOp) -> Vec<u32> {
         vec![0xC30]
@@ -207,6 +278,9 @@ impl Family for OneshotFam {
             rx_open: true,
             rx_alive: true,
             tmp: None,
+            triggered: false,
+            live: false,
+            expired: false,
         }
     }
 
@@ -282,6 +356,67 @@ impl Family for OneshotFam {
                     vec![]
                 }
             }
+            // `Timeout::poll` looks at the expiry first, then polls the receiver; with the expiry and
+            // the value both there the wrapper says Elapsed (the value stays in the channel), tokio's
+            // own `timeout` polls first and would deliver it — the contract-only relation accepts either
+            OOp::TimeoutRecv => {
+                if phase == 2 {
+                    let r = n.tmp.take().expect("received");
+                    n.live = false;
+                    n.expired = false;
+                    return vec![MStep::Done(n, match r {
+                        Ok(v) => ORes::Val(v),
+                        Err(()) => ORes::Closed,
+                    })];
+                }
+                if !n.rx_alive {
+                    return vec![MStep::Done(n, ORes::Nothing)];
+                }
+                if phase == 0 {
+                    if n.triggered {
+                        // born expired: the receiver is never polled
+                        return vec![MStep::Done(n, ORes::Elapsed)];
+                    }
+                    n.live = true;
+                    n.expired = false;
+                }
+                let mut out = Vec::new();
+                if n.expired {
+                    let mut e = n.clone();
+                    e.live = false;
+                    e.expired = false;
+                    out.push(MStep::Done(e, ORes::Elapsed));
+                    if _strict {
+                        return out;
+                    }
+                }
+                if let Some(v) = n.slot.take() {
+                    n.tmp = Some(Ok(v));
+                    n.rx_alive = false;
+                    n.rx_open = false;
+                    out.push(MStep::Cont(n, 2));
+                } else if n.tx != TxSt::Alive || !n.rx_open {
+                    n.tmp = Some(Err(()));
+                    n.rx_alive = false;
+                    n.rx_open = false;
+                    out.push(MStep::Cont(n, 2));
+                } else if phase == 0 {
+                    out.push(MStep::Cont(n, 1));
+                }
+                out
+            }
+            OOp::TriggerAll => {
+                n.triggered = true;
+                if n.live {
+                    n.expired = true;
+                }
+                vec![MStep::Done(n, ORes::Unit)]
+            }
+            OOp::ClearTriggers => {
+                n.triggered = false;
+                vec![MStep::Done(n, ORes::Unit)]
+            }
+            OOp::Yield => vec![MStep::Done(n, ORes::Unit)],
             OOp::TryRecv => {
                 if !n.rx_alive {
                     return vec![MStep::Done(n, ORes::Nothing)];
@@ -381,6 +516,79 @@ pub fn program_set(set: &str) -> Vec<Program<OneshotFam>> {
                     out.push(Program::fork_join((), a.clone(), vec![b.clone()]));
                 }
             }
+        }
+    }
+    // ---- cancellation: the receiver task aborted while it awaits the value — before, after or
+    // while the sender sends / drops / waits in closed(); the sender task aborted inside closed()
+    let g = |v: &[OOp]| v.iter().cloned().map(GOp::Op).collect::<Vec<_>>();
+    let rx_victims: Vec<Vec<OOp>> = vec![vec![OOp::Recv], vec![OOp::TryRecv, OOp::Recv]];
+    let tx_tasks: Vec<Vec<OOp>> = vec![
+        vec![OOp::Send(7)],
+        vec![OOp::DropTx],
+        vec![OOp::TxClosed],
+        vec![OOp::TxClosed, OOp::Send(7)],
+        vec![OOp::IsClosed, OOp::Send(7)],
+        vec![OOp::TxClosed, OOp::IsClosed],
+    ];
+    for v in &rx_victims {
+        for tx in &tx_tasks {
+            // the sender is a task of its own
+            let main = vec![GOp::Spawn(1), GOp::Spawn(2), GOp::Abort(1), GOp::Join(1), GOp::Join(2)];
+            out.push(Program { cfg: (), threads: vec![main, g(v), g(tx)] });
+            // main holds the sender: before the abort / after the victim is gone
+            let mut m1 = vec![GOp::Spawn(1), GOp::Abort(1), GOp::Join(1)];
+            m1.extend(g(tx));
+            out.push(Program { cfg: (), threads: vec![m1, g(v)] });
+            if tx.len() == 1 && !matches!(tx[0], OOp::TxClosed) {
+                let mut m2 = vec![GOp::Spawn(1)];
+                m2.extend(g(tx));
+                m2.extend([GOp::Abort(1), GOp::Join(1)]);
+                out.push(Program { cfg: (), threads: vec![m2, g(v)] });
+            }
+            if thorough {
+                // the abort comes from a third task while main uses the sender
+                let m3 = {
+                    let mut m = vec![GOp::Spawn(1), GOp::Spawn(2)];
+                    m.extend(g(tx));
+                    m.extend([GOp::Join(2), GOp::Join(1)]);
+                    m
+                };
+                out.push(Program { cfg: (), threads: vec![m3, g(v), vec![GOp::Abort(1)]] });
+            }
+        }
+    }
+    // ---- cancellation by `time::timeout` + `trigger_timeouts` (`timeout(&mut rx)`: after Elapsed the
+    // receiver is still there and a value sent meanwhile must still arrive).  No execution of these
+    // programs may fail (see fam_task.rs on the timeout table): main triggers before it joins.
+    for rxs in [
+        vec![OOp::TimeoutRecv],
+        vec![OOp::TimeoutRecv, OOp::TryRecv],
+        vec![OOp::TimeoutRecv, OOp::TimeoutRecv],
+        vec![OOp::TimeoutRecv, OOp::TryRecv, OOp::DropRx],
+    ] {
+        for mid in [vec![OOp::Send(7)], vec![OOp::DropTx], vec![OOp::IsClosed], vec![OOp::IsClosed, OOp::Send(7)]] {
+            // main holds the sender (spawning has no scheduling point: yield so that the child can wait)
+            let mut m = vec![GOp::Spawn(1), GOp::Op(OOp::Yield)];
+            m.extend(g(&mid));
+            m.extend([GOp::Op(OOp::Yield), GOp::Op(OOp::TriggerAll), GOp::Join(1), GOp::Op(OOp::ClearTriggers), GOp::Op(OOp::IsClosed)]);
+            out.push(Program { cfg: (), threads: vec![m, g(&rxs)] });
+            // the sender is a task of its own
+            let m2 = vec![GOp::Spawn(1), GOp::Spawn(2), GOp::Op(OOp::Yield), GOp::Op(OOp::TriggerAll), GOp::Join(1), GOp::Join(2), GOp::Op(OOp::ClearTriggers)];
+            out.push(Program { cfg: (), threads: vec![m2, g(&rxs), g(&mid)] });
+            if thorough {
+                // ... and the receiver task is aborted as well
+                let m3 = vec![GOp::Spawn(1), GOp::Spawn(2), GOp::Op(OOp::Yield), GOp::Abort(1), GOp::Op(OOp::TriggerAll), GOp::Join(1), GOp::Join(2), GOp::Op(OOp::ClearTriggers)];
+                out.push(Program { cfg: (), threads: vec![m3, g(&rxs), g(&mid)] });
+            }
+        }
+    }
+    for v in [vec![OOp::TxClosed], vec![OOp::IsClosed, OOp::TxClosed], vec![OOp::TxClosed, OOp::Send(7)]] {
+        for rx in [vec![OOp::Recv], vec![OOp::TryRecv, OOp::Recv], vec![OOp::TryRecv], vec![OOp::Close, OOp::Recv], vec![OOp::DropRx]] {
+            let main = vec![GOp::Spawn(1), GOp::Spawn(2), GOp::Abort(1), GOp::Join(1), GOp::Join(2)];
+            out.push(Program { cfg: (), threads: vec![main, g(&v), g(&rx)] });
+            let mut m1 = vec![GOp::Spawn(1), GOp::Abort(1), GOp::Join(1)];
+            m1.extend(g(&rx));
+            out.push(Program { cfg: (), threads: vec![m1, g(&v)] });
         }
     }
     out.sort_by_key(|p| p.size());
